@@ -487,6 +487,15 @@ def r10_pairing(idx, r):
     pairing_rule(idx, r, ["armi.reactor.grids", "armi.reactor.blocks", "armi.reactor.assemblies", "armi.utils.hexagon", "armi.utils.iterables"], 100)
 
 
+def r_borrowed_r08_12(idx, r):
+    """clauses of C07/C13 the symmetry answers rest on: a Cartesian grid keeps its half-pitch offset through changePitch and fromRectangle (R07.1); the n-th image is rotated by n times the angle (R13.1)"""
+    from ..report import Only
+    from .c07 import r1_lattice_vectors
+    from .c13 import r1_pairing
+    r1_lattice_vectors(idx, Only(r, ["CartesianGrid."]))
+    r1_pairing(idx, Only(r, ["convert:nth-image"]))
+
+
 def run(idx, chk):
     chk.explanation = (
         "C08: the two third-core images and the six index rotations are extracted as integer matrices and shown to equal exact 120/60k degree "
@@ -514,3 +523,5 @@ def run(idx, chk):
                  necessary="indices and rotation counts reach the parameter they are meant for")
     chk.run_rule("R08.11", "Cartesian blocks on either symmetry axis are halved (evaluated on 32 cells); nothing position-derived is cached across a rotation", lambda r: r11_cartesian_cut_and_cached_positions(idx, r), floor=2,
                  necessary="a cell and its symmetric images are classified alike; after rotate() pins are reported at the rotated positions")
+    chk.run_rule("R08.12", "clauses of C07/C13 the symmetry answers rest on: a Cartesian grid keeps its half-pitch offset through changePitch and fromRectangle (R07.1); the n-th ", lambda r: r_borrowed_r08_12(idx, r), floor=2,
+                 necessary="symmetric images are computed with the grid's real offset; a copy sits at the image cell in the image orientation")
